@@ -74,6 +74,7 @@ func checkC10(e *Engine, r *Report) {
 	r.NotDecided = []string{"JSON fidelity of nested NRI/Kubernetes types", "atomicity of rename(2) against process kill (OS assumption); durability against power loss is not part of the property"}
 	r.Assumptions = []string{"rename(2) atomically replaces the destination", "encoding/json round-trips exported fields of the repository's own types"}
 	checkErrorPolarity(e, r, "R3 replace-by-rename only", pkgCA)
+	checkErrorPropagation(e, r, "R3 replace-by-rename only", pkgCA)
 
 	fFilePath := e.Field(pkgCA, "cache", "filePath")
 	save := r.Anchor(pkgCA, "cache.Save")
